@@ -28,6 +28,8 @@ func init() {
 				Edits: []Edit{{File: "driver/netconf/read.go", Old: "\t\tfor d.Channel.PromptPattern.Match(b) { //nolint: nestif", New: "\t\ttail := b\n\t\tif len(tail) > d.Channel.PromptSearchDepth {\n\t\t\ttail = tail[len(tail)-d.Channel.PromptSearchDepth:]\n\t\t}\n\n\t\tfor d.Channel.PromptPattern.Match(tail) { //nolint: nestif"},
 					{File: "driver/netconf/read.go", Old: "\t\t\t\tb = []byte(ss[1])\n\n\t\t\t\tcontinue", New: "\t\t\t\tb = []byte(ss[1])\n\t\t\t\ttail = b\n\n\t\t\t\tcontinue"},
 					{File: "driver/netconf/read.go", Old: "\t\t\tb = nil\n\t\t}\n\n\t\ttime.Sleep(d.Channel.ReadDelay)", New: "\t\t\tb = nil\n\t\t\ttail = nil\n\t\t}\n\n\t\ttime.Sleep(d.Channel.ReadDelay)"}}},
+			{ID: "C02-skip-unidentified", Desc: "any byte that is not a chunk marker is stepped over between chunks", Rule: "C02/skip-only-identified",
+				Edits: []Edit{{File: "response/netconf.go", Old: "\t\tif d[cursor] == byte('\\n') {\n", New: "\t\tif d[cursor] != byte('#') {\n"}}},
 			{ID: "C02-no-header-bound", Desc: "bound check after the chunk marker removed", Rule: "C02/bounds",
 				Edits: []Edit{{File: "response/netconf.go", Old: "\t\tif cursor >= len(d) {\n\t\t\treturn errNetconf1Dot1ParseError(\n\t\t\t\t\"unable to parse netconf response: data ends inside a chunk header\",\n\t\t\t)\n\t\t}\n\n", New: ""}}},
 			{ID: "C02-cap-instead-of-len", Desc: "chunk size compared with the capacity", Rule: "C02/bounds",
@@ -149,6 +151,8 @@ func runC02(c *Ctx, r *Report) {
 		}
 	}
 
+	r.Rule("C02/skip-only-identified", "the chunk decoder steps over a single byte of the frame only where that byte was compared equal to a framing constant", 2)
+	checkSkipOnlyIdentified(c, r, "C02/skip-only-identified", fns)
 	checkFailedOnParseError(c, r)
 	checkTerminatorRequired(c, r)
 	checkClassifyDecoded(c, r)
